@@ -1,6 +1,7 @@
 package model
 
 import (
+	"sort"
 	"encoding/base64"
 	"encoding/json"
 	"fmt"
@@ -303,6 +304,9 @@ func splitAlts(tag string) []string {
 }
 
 func sortValues(vs []reflect.Value) {
+	// first a method-free order (see rawCanon), so that the rendering below - which may call
+	// generated methods - visits the values in a fixed order whatever order they came in
+	sort.SliceStable(vs, func(a, b int) bool { return rawCanon(vs[a]) < rawCanon(vs[b]) })
 	rs := make([]string, len(vs))
 	for i, v := range vs {
 		rs[i] = Render(v)
